@@ -24,6 +24,13 @@ def main():
     mark("setup-done")
     for i, r in enumerate(spec["requests"]):
         mark(r.get("mark", "r%d" % i))
+        if r["method"] == "__WRITE__":          # plant a file below the storage folder (not a request)
+            fp = os.path.join(spec["folder"], r["path"])
+            os.makedirs(os.path.dirname(fp), exist_ok=True)
+            with open(fp, "w", newline="") as fh:
+                fh.write(r.get("data") or "")
+            res.append(dict(status=0))
+            continue
         try:
             data = r.get("data")
             if isinstance(data, dict) and "latin1" in data:
